@@ -20,6 +20,11 @@ drivers: each MagicMemoryCL port is driven by TestSrcCL (fresh object per reques
          request object in place after every send, or by an RTL en/rdy master (live req.msg signal) connected with plain
          `connect` through the stdlib adapters, with back-to-back requests and slow sinks; the judgement is always on the
          accepted request stream vs responses vs final image (latency 0..5 for CL, extra_latency 0..4 for the stream memory).
+memory : mem_nbytes is drawn from powers of two, non-powers of two (0x3000, 0x6001, 1000, ...), small sizes and sizes
+         tight around the address window; requests go to 1-3 regions spread over the whole memory (anywhere, a twin
+         differing in one high address bit, the top incl. the very last byte, the bottom); every access stays inside
+         the bytearray (out-of-range behaviour is not defined by the property); bytes outside the observed ranges must
+         still be zero at the end.
 widths : the data width is PER PORT (W : nat -> Z in the pipeline model, `list Z` in check_history; a processed request
          carries its port's width, `wreq`): one memory serving ports with different message types is covered.
 tie    : T-acc/T-diff.  The REAL MagicMemoryCL and stream MagicMemoryRTL are simulated with random request streams
@@ -680,7 +685,7 @@ def main(ctx):
                   'loop variable `i` of up_mem read from the caller frame (a refactor that renames it makes the harness fail closed)',
                   'pymtl3 simulation kernel (DefaultPassGroup), TestSrcCL/TestSinkCL/SourceRTL/SinkRTL test drivers, the harness\'s own requesters (ReuseSrcCL: one request object rewritten in place; RtlMaster: en/rdy RTL master behind the stdlib RTL<->CL adapters), bitstruct field packing of MemMsg']
   ctx.assumptions += [
-    'memory model is unbounded Z -> byte; generated addresses stay inside the bytearray (IndexError behaviour at the end of memory is outside C18)',
+    'memory model is unbounded Z -> byte; generated accesses stay inside the bytearray of the configured size (any mem_nbytes, incl. non-powers of two; the last byte is used); behaviour of out-of-range addresses (IndexError) is outside C18',
     'AMOs in the random streams use the full data width (len field 0) — sub-word AMOs are probed separately (keys C18:subword-amo:CL / C18:subword-amo:RTL)',
     'INV/FLUSH (MagicMemoryCL only) make no MagicMemoryFL call; they are placed in the proposed log just before the next observable request of their port (they commute with everything)',
     'the cycle-accurate timing of Lib/MemPipe.cycle_actions is not compared with the implementation; theorems hold for every oracle, and the tie is through the observed service order',
@@ -693,6 +698,6 @@ def main(ctx):
     ctx.note('correspondence crashed: ' + traceback.format_exc()[-1500:])
     ctx.violation('C18:harness-crash', f'correspondence could not run: {e!r}', {'traceback': traceback.format_exc()}, found_input=False)
   return ctx.finish(rule='history = (implementation CL|RTL, per-port message types (data width 2/4/8/16 bytes, opaque 1-11 bits, addr 20-48 bits; mixed widths on one memory), 1-4 ports, latency, stall prob, seed, src/sink delays, per-port random '
-                         'request streams of reads/writes len 1..W / full-width AMOs (9 ops) / INV,FLUSH on a 4-24 byte shared window, optional preload); '
+                         'request streams of reads/writes len 1..W / full-width AMOs (9 ops) / INV,FLUSH on 1-3 small shared address regions spread over a memory of random size (2^k and non-2^k, small, tight), optional preload); '
                          'distinct = distinct (impl, streams, preload, observed service order); non-trivial = some read/AMO observes a byte written by an '
                          'earlier serviced request; each history is judged by the certified Coq acceptor check_history (vm_compute)')
